@@ -175,3 +175,90 @@ def decoded_program(prog):
         "page": emit.page_source(prog),
         "context": prog["ctx"],
     }
+
+
+def real_render_python(prog, classes, w, budget=None, slot_funcs=0):
+    """Entry variant: Component.render(kwargs=..., slots=...) for a py_entry page."""
+    node = prog["page"][0]
+    cls = classes[node[1]]
+    kwargs = {k: e[1] for k, e in node[2]}
+    slots = {}
+    for i, f in enumerate(node[5] if node[4] == "fills" else []):
+        text = f[4][0][1]
+        if (slot_funcs >> i) & 1:
+            def fn(ctx, data, ref_, text=text, name=f[1][1]):
+                world.fault_point("slotfn:" + name)
+                return text
+            slots[f[1][1]] = fn
+        else:
+            slots[f[1][1]] = text
+    from django.template import Context
+
+    try:
+        cm = StepBudget(budget) if budget else None
+        if cm:
+            cm.__enter__()
+        try:
+            html = cls.render(context=Context(dict(prog["ctx"])), kwargs=kwargs, slots=slots)
+        finally:
+            if cm:
+                cm.__exit__()
+                LAST_STEPS[0] = cm.n
+        return ("ok", str(html))
+    except world.StepBudgetExceeded as e:
+        return ("hang", str(e))
+    except RecursionError:
+        return ("hang", "RecursionError")
+    except Exception as e:
+        return ("err", type(e).__name__, str(e), e)
+
+
+def gen_prefix_ops(ch, params, mode, max_ops, pfx="p"):
+    """History prefix (DESIGN.md 4/C01): other renders (some failing), cache loss, GC, before the checked op."""
+    n = ch.small(max_ops, "n_prefix", 1, 2)
+    ops = []
+    for k in range(n):
+        kind = ch.weighted([3, 3, 1, 1], "prefix_kind")
+        if kind in (0, 1):
+            sub = dict(params, size_lo=3, size_hi=14, max_comps=2, py_entry=0)
+            p = rename_program(progmod.generate(ch, sub), f"{pfx}{k}")
+            p["mode"] = mode
+            op = {"op": "render", "prog": p, "fault_at": None, "exc": 0}
+            if kind == 1:
+                op["fault_at"] = 1 + ch.draw(6, "prefix_fault_at")
+                op["exc"] = ch.draw(len(world.exc_kinds()), "prefix_exc")
+            ops.append(op)
+        elif kind == 2:
+            ops.append({"op": "cache_clear"})
+        else:
+            ops.append({"op": "gc"})
+    return ops
+
+
+def run_prefix_ops(ops, w, stats):
+    for op in ops:
+        if op["op"] == "render":
+            classes = emit.build_classes(op["prog"])
+            w.begin_op(fault_at=op["fault_at"], exc_kind=op["exc"])
+            r = real_render_page(op["prog"], classes, w, budget=3_000_000)
+            fired = w.main.fired is not None
+            stats["fault:EXC@callback (history prefix)"] = stats.get("fault:EXC@callback (history prefix)", 0) + (1 if fired else 0)
+            stats["prefix_renders"] = stats.get("prefix_renders", 0) + 1
+            w.log("prefix", r[0], r[1] if r[0] != "ok" else normalise(r[1]))
+        elif op["op"] == "cache_clear":
+            world.media_cache_fault("clear")
+            stats["fault:CACHE_CLEAR"] = stats.get("fault:CACHE_CLEAR", 0) + 1
+        elif op["op"] == "gc":
+            world.gc_now()
+            stats["fault:GC_NOW"] = stats.get("fault:GC_NOW", 0) + 1
+
+
+def decoded_ops(ops):
+    out = []
+    for op in ops:
+        if op["op"] == "render":
+            out.append({"op": "render", "program": decoded_program(op["prog"]), "fault_at": op["fault_at"],
+                        "exc": world.exc_kinds()[op["exc"]][0] if op["fault_at"] else None})
+        else:
+            out.append({"op": op["op"]})
+    return out
